@@ -1,6 +1,7 @@
 /- C30 — property theorems -/
 import TornadoModel.C30.Lemmas
 import TornadoModel.C30.Multipart
+import TornadoModel.C30.Multipart2231
 import TornadoModel.Base.Wire
 namespace TornadoModel.C30
 open TornadoModel.C06 (Str)
@@ -149,6 +150,53 @@ theorem multipart_trailing_backslash_recovered :
       { files := [([92], [{ filename := [102], body := [118], contentType := C43.ofAscii "application/unknown" }])] } := by
     decide
   rw [this]
+
+/-! ### multipart round trip, RFC 2231 / 5987 parameters (`name*=utf-8''pct`) -/
+
+/-- `_parse_header` on the Content-Disposition value the RFC 2231 encoder writes (`form-data; name*=utf-8''…; filename*=utf-8''…`)
+    yields exactly the name and the filename, for ANY scalar-valued text (control characters, quotes, backslashes,
+    semicolons, `'`, `%`, `*`, non-ASCII, astral): `_parseparam`, `decode_params`, the percent-decoding, `email.utils.quote`/
+    `unquote` around the tick split, and the UTF-8 decoding of `collapse_rfc2231_value` compose to the identity. -/
+theorem multipart_disposition2231_recovered (name : Str) (filename : Option Str) (hn : name.all Wire.isScalar = true)
+    (hf : ∀ fn, filename = some fn → fn.all Wire.isScalar = true) :
+    parseHeader (R.dispValue name filename) =
+      .ok (C43.ofAscii "form-data", (C43.ofAscii "name", name) :: fnParams filename) :=
+  R.parseHeader_dispValue name filename hn hf
+
+/-- `multipart_roundtrip_2231`: the lossless clause for the RFC 2231 form.  Every list of fields and files (arbitrary byte
+    contents, repeated names; names and filenames ANY non-empty scalar-valued text — nothing is excluded, control characters
+    included, because everything outside `[A-Za-z0-9._~-]` travels percent-encoded) written by `Spec.encodeMultipart2231`
+    under a boundary whose delimiter occurs nowhere in the content is parsed back to exactly those fields and files
+    (same side condition `LF ∉ boundary` as `multipart_roundtrip`). -/
+theorem multipart_roundtrip_2231 (cfg : Config) (b : Bytes) (parts : List Spec.Part) (hwf : R.WellFormed cfg b parts)
+    (hlf : 10 ∉ b) :
+    parseMultipart cfg b (Spec.encodeMultipart2231 b parts) {} = .ok (Spec.expected parts) :=
+  R.parseMultipart_sendable_accept cfg b parts hwf.enabled (hwf.sendable hlf) hwf.count hwf.header_size
+
+set_option maxRecDepth 8000 in
+/-- non-vacuity: a field named `LF " \ ; é 😀 '` and an upload whose field name is `%41*` and whose filename is `NUL \`,
+    with a content type and binary content containing `--` and CR LF CR LF, under the boundary `zZ9` -/
+example : R.WellFormed {} [122, 90, 57]
+      [{ name := [10, 34, 92, 59, 233, 128512, 39], value := [0, 255, 45, 45] },
+       { name := [37, 52, 49, 42], filename := some [0, 92], ctype := some [116, 47, 112], value := [13, 10, 13, 10, 45, 45, 122] }] ∧
+    10 ∉ ([122, 90, 57] : Bytes) := by
+  refine ⟨?_, by decide⟩
+  constructor <;> decide
+
+/-- `limits_exact_2231`: both limits are exact on RFC 2231-encoded forms too -/
+theorem limits_exact_2231 (cfg : Config) (b : Bytes) (parts : List Spec.Part) (hen : cfg.enabled = true)
+    (hs : R.Sendable b parts) :
+    ((parts.length ≤ cfg.maxParts ∧ ∀ p ∈ parts, R.headerSize p ≤ cfg.maxPartHeaderSize) →
+      parseMultipart cfg b (Spec.encodeMultipart2231 b parts) {} = .ok (Spec.expected parts)) ∧
+    ((parts.length > cfg.maxParts ∨ ∃ p ∈ parts, R.headerSize p > cfg.maxPartHeaderSize) →
+      parseMultipart cfg b (Spec.encodeMultipart2231 b parts) {} = .error .httpInput) :=
+  ⟨fun h => R.parseMultipart_sendable_accept cfg b parts hen hs h.1 h.2,
+   fun h => R.parseMultipart_sendable_reject cfg b parts hen hs h⟩
+
+/-- non-vacuity: one part named `é`; its header block `Content-Disposition: form-data; name*=utf-8''%C3%A9` is 51 bytes -/
+example : R.Sendable [98] [{ name := [233], value := [118] }] ∧ R.headerSize { name := [233], value := [118] } = 51 := by
+  refine ⟨?_, by decide⟩
+  constructor <;> decide
 
 /-! ### limits -/
 
